@@ -1162,6 +1162,43 @@ func c11RoundE(c *Ctx, w *World) {
 		}
 	}
 
+	c.Rule("C11.H13", "GATE", "a block is skipped as stored only if it is stored: every call of WriteBlockWithoutState in package core is guarded by the answer of BlockChain.HasBlock — the test that looks for the part rawdb.WriteBlock writes last — being false, not by a test of an earlier part (HasHeader): after a kill between the header and the body write the cheaper test finds the half-written side block present, it is never completed, and the re-import loop dereferences the missing block on every restart")
+	c.Min(1)
+	{
+		wb := w.FuncObj("core", "BlockChain", "WriteBlockWithoutState")
+		hb := w.FuncObj("core", "BlockChain", "HasBlock")
+		n := 0
+		for _, fn := range w.FuncsIn("core") {
+			if fn.Blocks == nil || strings.HasSuffix(w.fileOf(fn.Pos()), "_test.go") {
+				continue
+			}
+			for k, ci := range callsTo(fn, wb) {
+				n++
+				c.sites++
+				c.sawFunc(fname(fn))
+				guard := ""
+				okG := false
+				for _, a := range atomsOf(factsAt(ci.Block())) {
+					if a.Kind != "true" {
+						continue
+					}
+					if cc, isCall := stripConvNoBind(a.X).(*ssa.Call); isCall {
+						if o := calleeObj(cc); o != nil && strings.HasPrefix(o.Name(), "Has") {
+							guard = o.Name()
+							if o == hb && !a.Truth {
+								okG = true
+							}
+						}
+					}
+				}
+				c.Check(fmt.Sprintf("%s#write-without-state-%d-only-if-not-HasBlock", fname(fn), k), ci.Pos(), okG, ifelse(okG, "guarded by !HasBlock", "the write of a block without state is guarded by "+ifelse(guard != "", guard, "no presence test")+", not by HasBlock: a half-written block (header durable, body missing) counts as stored and is never completed"))
+			}
+		}
+		if n == 0 {
+			c.Undecided("core#WriteBlockWithoutState-callers", token.NoPos, "no call of WriteBlockWithoutState found in package core")
+		}
+	}
+
 	c.Rule("C11.H10", "ALWAYS-WITH", "the head is one block: setHeadBlock, the in-memory head setter used by insert and at the end of a reorganisation, moves the head header (hc.currentHeader) and the head block (currentBlock) together on every path. Moving the header only forward leaves CurrentHeader() on the dropped branch's tip after a competing branch of equal or lower height became canonical — neither the head block's header nor the canonical header of its number, and different from what a restart reads from the markers")
 	c.Min(1)
 	{
